@@ -345,7 +345,7 @@ def run(run):
     if sizes["min_accepted_client_hello"] != sizes["client_hello"]:
         run.oracle_violation("a client hello with shortened padding is accepted",
                              {"what": "short hello accepted", "sizes": sizes}, "connection.py:HandshakeClientHelloMessage.deserialize")
-    n = 40 if run.thorough() else 8
+    n = 250 if run.thorough() else 40
     cases, impl, model = [], [], []
     for i in range(n):
         c, d = world(run, run.rng, i, sizes, hello)
